@@ -89,7 +89,7 @@ type l1LR struct {
 }
 
 func newWorld(c Case) *world {
-	w := &world{m: rm.New(), t0: time.Now(), spec: map[string]HostSpec{}, host: map[string]*rm.Host{}, blobLen: map[string]int{}, limit: c.Limit, nMirror: len(c.Mirrors), dupFirst: c.DupMirror}
+	w := &world{m: rm.New(), t0: time.Now(), spec: map[string]HostSpec{}, host: map[string]*rm.Host{}, blobLen: map[string]int{}, extSpec: map[string]HostSpec{}, limit: c.Limit, nMirror: len(c.Mirrors), dupFirst: c.DupMirror}
 	w.dInit, w.dMax = c.delays()
 	switch {
 	case c.Defaults:
